@@ -33,7 +33,8 @@ CHECKS = {
              "{none, immutable, mutable} x path {t, o.t, d[k], o.d[k]} x host {plain, spec class with the alias as managed int attribute} x Deprecated) with "
              "action properties Shadow, Live, Passthrough, Missing, ReadsPure. All access paths of length 3 (thorough 4) over {alias/target read, write, delete, "
              "copy-on-write helper, deepcopy} plus random paths of length 8-10 are replayed through real Alias/DeprecatedAlias descriptors, recording value, exception "
-             "class, target/override state, fallback identity and warning count; TLC re-runs the model along every observed path.",
+             "class, target/override state, fallback identity and warning count; TLC re-runs the model along every observed path. AliasColl.tla is the same machine for collection-typed "
+             "aliases of a spec class, whose element helpers must build on the value read through the alias and leave the target's own list alone.",
         note=TB, technique="TLA+ spec + TLC model checking; exhaustive path replay through the real descriptor; TLC trace validation", ref="3 C18"),
     "C15": dict(
         text="Conforms(v, T) of PyTypes.tla transcribes the documented meaning of the annotation language; TLC enumerates every annotation of depth <= 1 "
@@ -60,59 +61,85 @@ CHECKS = {
              "(instantiate / __spec_class__ / __dataclass_fields__ / through a subclass) of freshly built lazy classes (Attr and dataclasses.field declarations, lazy "
              "parent, own __new__, plain subclass, nested spec types) under a deterministic line-level scheduler: quick = a fixed fraction of all <=1-preemption schedules at "
              "shared-state lines + random; thorough = every <=1-preemption schedule at any library line, thinned <=2, 3 threads. TLC validates each recorded execution "
-             "against the protocol and compares every thread's canonical class description and instance repr with the eager sequential reference.",
+             "against the protocol and compares every thread's canonical class description and instance repr (of the class and, where the scenario has one, of its plain subclass mixing in another base's __new__) with the eager sequential reference; "
+             "threads may first-use different classes of one hierarchy (child and lazy parent).",
         note=TB + "; CPython GIL with line-granularity scheduling; harness-side replacement of the library's RLocks",
         technique="TLA+ protocol spec + PlusCal implementation model (TLC); trace validation of real scheduled-thread executions against the eager reference",
         ref="3 C19"),
     "C01": dict(
         text="TLC model-checks SpecClass.tla (one live instance per scenario; Step = executable model of the documented helper semantics in SpecClassOps.tla; invariant TypeOK, "
-             "action properties Atomic, SetAttrIsWith, CowEqualsInplace, IfFalse) for 10 scenarios (scalars incl. Optional/Union/Literal, list/set/dict of scalars, nested spec, "
-             "list/dict/KeyedList of (keyed) spec items, preparers); every distinct reachable state x the exported action universe (all helpers x flags x conforming and "
-             "non-conforming arguments x raising callbacks; quick tier thinned per state) is executed on real classes rendered from the same scenario record, recording value "
-             "projections, identity tokens, argument objects, a peer instance and class defaults; TLC judges each event: after a copy-on-write call the receiver's projection and the identity map of every mutable node reachable from it are unchanged "
-             "(whether the call returned or raised) and every argument object is unchanged.",
+             "action properties Atomic, SetAttrIsWith, CowEqualsInplace, IfFalse) for the scenario corpus (about 40 hand-written class definitions -- scalars incl. Optional/Union/Literal, list/set/dict of scalars, nested spec, "
+             "list/dict/KeyedList/KeyedSet of (keyed) spec items, idempotent / non-idempotent / raising preparers, every way of declaring a default, do_not_copy by decorator list, "
+             "Attr flag and whole class, spec and plain subclasses with re-defaulted attributes, spec-plain-spec, decorator-selected attributes, eager bootstrap -- plus a fixed "
+             "corpus of 40 class definitions generated from the class grammar: a seed-rotating subset of 4 in the quick tier, all in the thorough tier); every distinct reachable "
+             "state x the exported action universe (all helpers x flags x conforming and non-conforming arguments x raising callbacks; quick tier thinned per state) is executed on "
+             "real classes rendered from the same scenario record, every copy-on-write call once more on its own result, plus seeded multi-step histories on persistent objects; "
+             "recorded: value projections (incl. key-index coherence of keyed containers), identity tokens, argument objects, a peer instance and class defaults; corrupted copies "
+             "of real events must be rejected by the judge (binding canaries); TLC judges each event: after a copy-on-write call the receiver's projection and the identity map of every mutable node reachable from it are unchanged "
+             "(whether the call returned, raised, or was cut short by a fault injected at an executed library line) and every argument object is unchanged.",
         note=TB, technique="TLA+ spec + TLC model checking; spec->code replay of every (state, action); TLC-judged events", ref="3 C01"),
     "C02": dict(
         text="TLC model-checks SpecClass.tla (one live instance per scenario; Step = executable model of the documented helper semantics in SpecClassOps.tla; invariant TypeOK, "
-             "action properties Atomic, SetAttrIsWith, CowEqualsInplace, IfFalse) for 10 scenarios (scalars incl. Optional/Union/Literal, list/set/dict of scalars, nested spec, "
-             "list/dict/KeyedList of (keyed) spec items, preparers); every distinct reachable state x the exported action universe (all helpers x flags x conforming and "
-             "non-conforming arguments x raising callbacks; quick tier thinned per state) is executed on real classes rendered from the same scenario record, recording value "
-             "projections, identity tokens, argument objects, a peer instance and class defaults; TLC judges each event: the identity tokens of the result and of the receiver intersect only in objects the caller handed in or below do_not_copy attributes.",
+             "action properties Atomic, SetAttrIsWith, CowEqualsInplace, IfFalse) for the scenario corpus (about 40 hand-written class definitions -- scalars incl. Optional/Union/Literal, list/set/dict of scalars, nested spec, "
+             "list/dict/KeyedList/KeyedSet of (keyed) spec items, idempotent / non-idempotent / raising preparers, every way of declaring a default, do_not_copy by decorator list, "
+             "Attr flag and whole class, spec and plain subclasses with re-defaulted attributes, spec-plain-spec, decorator-selected attributes, eager bootstrap -- plus a fixed "
+             "corpus of 40 class definitions generated from the class grammar: a seed-rotating subset of 4 in the quick tier, all in the thorough tier); every distinct reachable "
+             "state x the exported action universe (all helpers x flags x conforming and non-conforming arguments x raising callbacks; quick tier thinned per state) is executed on "
+             "real classes rendered from the same scenario record, every copy-on-write call once more on its own result, plus seeded multi-step histories on persistent objects; "
+             "recorded: value projections (incl. key-index coherence of keyed containers), identity tokens, argument objects, a peer instance and class defaults; corrupted copies "
+             "of real events must be rejected by the judge (binding canaries); TLC judges each event: the identity tokens of the result and of the receiver intersect only in objects the caller handed in or below do_not_copy attributes.",
         note=TB, technique="TLA+ spec + TLC model checking; spec->code replay of every (state, action); TLC-judged identity partition", ref="3 C02"),
     "C03": dict(
         text="TLC model-checks SpecClass.tla (one live instance per scenario; Step = executable model of the documented helper semantics in SpecClassOps.tla; invariant TypeOK, "
-             "action properties Atomic, SetAttrIsWith, CowEqualsInplace, IfFalse) for 10 scenarios (scalars incl. Optional/Union/Literal, list/set/dict of scalars, nested spec, "
-             "list/dict/KeyedList of (keyed) spec items, preparers); every distinct reachable state x the exported action universe (all helpers x flags x conforming and "
-             "non-conforming arguments x raising callbacks; quick tier thinned per state) is executed on real classes rendered from the same scenario record, recording value "
-             "projections, identity tokens, argument objects, a peer instance and class defaults; TLC judges each event: TypeOK (Conforms of PyTypes.tla, recursively through nested instances, keys and values) is evaluated by TLC on every OBSERVED post-state "
+             "action properties Atomic, SetAttrIsWith, CowEqualsInplace, IfFalse) for the scenario corpus (about 40 hand-written class definitions -- scalars incl. Optional/Union/Literal, list/set/dict of scalars, nested spec, "
+             "list/dict/KeyedList/KeyedSet of (keyed) spec items, idempotent / non-idempotent / raising preparers, every way of declaring a default, do_not_copy by decorator list, "
+             "Attr flag and whole class, spec and plain subclasses with re-defaulted attributes, spec-plain-spec, decorator-selected attributes, eager bootstrap -- plus a fixed "
+             "corpus of 40 class definitions generated from the class grammar: a seed-rotating subset of 4 in the quick tier, all in the thorough tier); every distinct reachable "
+             "state x the exported action universe (all helpers x flags x conforming and non-conforming arguments x raising callbacks; quick tier thinned per state) is executed on "
+             "real classes rendered from the same scenario record, every copy-on-write call once more on its own result, plus seeded multi-step histories on persistent objects; "
+             "recorded: value projections (incl. key-index coherence of keyed containers), identity tokens, argument objects, a peer instance and class defaults; corrupted copies "
+             "of real events must be rejected by the judge (binding canaries); TLC judges each event: TypeOK (Conforms of PyTypes.tla, recursively through nested instances, keys and values) is evaluated by TLC on every OBSERVED post-state "
              "of receiver and result, on every mutation route (constructor, dict cast, assignment, deletion, scalar/element/top-level helpers, preparers).",
         note=TB, technique="TLA+ spec + TLC model checking; TLC evaluates the type invariant on observed real states", ref="3 C03"),
     "C04": dict(
         text="TLC model-checks SpecClass.tla (one live instance per scenario; Step = executable model of the documented helper semantics in SpecClassOps.tla; invariant TypeOK, "
-             "action properties Atomic, SetAttrIsWith, CowEqualsInplace, IfFalse) for 10 scenarios (scalars incl. Optional/Union/Literal, list/set/dict of scalars, nested spec, "
-             "list/dict/KeyedList of (keyed) spec items, preparers); every distinct reachable state x the exported action universe (all helpers x flags x conforming and "
-             "non-conforming arguments x raising callbacks; quick tier thinned per state) is executed on real classes rendered from the same scenario record, recording value "
-             "projections, identity tokens, argument objects, a peer instance and class defaults; TLC judges each event: whenever the real call raised (whatever the model predicted) receiver, its identity map and the arguments are exactly as before; the failing "
+             "action properties Atomic, SetAttrIsWith, CowEqualsInplace, IfFalse) for the scenario corpus (about 40 hand-written class definitions -- scalars incl. Optional/Union/Literal, list/set/dict of scalars, nested spec, "
+             "list/dict/KeyedList/KeyedSet of (keyed) spec items, idempotent / non-idempotent / raising preparers, every way of declaring a default, do_not_copy by decorator list, "
+             "Attr flag and whole class, spec and plain subclasses with re-defaulted attributes, spec-plain-spec, decorator-selected attributes, eager bootstrap -- plus a fixed "
+             "corpus of 40 class definitions generated from the class grammar: a seed-rotating subset of 4 in the quick tier, all in the thorough tier); every distinct reachable "
+             "state x the exported action universe (all helpers x flags x conforming and non-conforming arguments x raising callbacks; quick tier thinned per state) is executed on "
+             "real classes rendered from the same scenario record, every copy-on-write call once more on its own result, plus seeded multi-step histories on persistent objects; "
+             "recorded: value projections (incl. key-index coherence of keyed containers), identity tokens, argument objects, a peer instance and class defaults; corrupted copies "
+             "of real events must be rejected by the judge (binding canaries); TLC judges each event: whenever the real call raised (whatever the model predicted) receiver, its identity map and the arguments are exactly as before; the failing "
              "edges cover ill-typed values at each position, missing index/key/element, duplicate keys, unknown keywords and callbacks raising at their k-th invocation.",
         note=TB, technique="TLA+ spec + TLC model checking; fault enumeration over every failing (state, action) edge; TLC-judged", ref="3 C04"),
     "C05": dict(
         text="TLC model-checks SpecClass.tla (one live instance per scenario; Step = executable model of the documented helper semantics in SpecClassOps.tla; invariant TypeOK, "
-             "action properties Atomic, SetAttrIsWith, CowEqualsInplace, IfFalse) for 10 scenarios (scalars incl. Optional/Union/Literal, list/set/dict of scalars, nested spec, "
-             "list/dict/KeyedList of (keyed) spec items, preparers); every distinct reachable state x the exported action universe (all helpers x flags x conforming and "
-             "non-conforming arguments x raising callbacks; quick tier thinned per state) is executed on real classes rendered from the same scenario record, recording value "
-             "projections, identity tokens, argument objects, a peer instance and class defaults; TLC judges each event: for scalar and top-level helpers the observed result/receiver equals Step(pre, action), the exception class is one the model allows, and the "
+             "action properties Atomic, SetAttrIsWith, CowEqualsInplace, IfFalse) for the scenario corpus (about 40 hand-written class definitions -- scalars incl. Optional/Union/Literal, list/set/dict of scalars, nested spec, "
+             "list/dict/KeyedList/KeyedSet of (keyed) spec items, idempotent / non-idempotent / raising preparers, every way of declaring a default, do_not_copy by decorator list, "
+             "Attr flag and whole class, spec and plain subclasses with re-defaulted attributes, spec-plain-spec, decorator-selected attributes, eager bootstrap -- plus a fixed "
+             "corpus of 40 class definitions generated from the class grammar: a seed-rotating subset of 4 in the quick tier, all in the thorough tier); every distinct reachable "
+             "state x the exported action universe (all helpers x flags x conforming and non-conforming arguments x raising callbacks; quick tier thinned per state) is executed on "
+             "real classes rendered from the same scenario record, every copy-on-write call once more on its own result, plus seeded multi-step histories on persistent objects; "
+             "recorded: value projections (incl. key-index coherence of keyed containers), identity tokens, argument objects, a peer instance and class defaults; corrupted copies "
+             "of real events must be rejected by the judge (binding canaries); TLC judges each event: for scalar and top-level helpers the observed result/receiver equals Step(pre, action), the exception class is one the model allows, and the "
              "returned object is the receiver exactly when the model says so (in-place, _if=False, UNCHANGED); MC proves obj.a = v == with_a(v, _inplace=True) and copy == in-place.",
         note=TB, technique="TLA+ executable model of the documentation; spec->code replay of every (state, action); TLC compares observed with Step", ref="3 C05"),
     "C06": dict(
         text="TLC model-checks SpecClass.tla (one live instance per scenario; Step = executable model of the documented helper semantics in SpecClassOps.tla; invariant TypeOK, "
-             "action properties Atomic, SetAttrIsWith, CowEqualsInplace, IfFalse) for 10 scenarios (scalars incl. Optional/Union/Literal, list/set/dict of scalars, nested spec, "
-             "list/dict/KeyedList of (keyed) spec items, preparers); every distinct reachable state x the exported action universe (all helpers x flags x conforming and "
-             "non-conforming arguments x raising callbacks; quick tier thinned per state) is executed on real classes rendered from the same scenario record, recording value "
-             "projections, identity tokens, argument objects, a peer instance and class defaults; TLC judges each event: for element helpers of list/set/dict/KeyedList attributes the observed attribute equals the plain container operation of the model (append, replace/insert "
+             "action properties Atomic, SetAttrIsWith, CowEqualsInplace, IfFalse) for the scenario corpus (about 40 hand-written class definitions -- scalars incl. Optional/Union/Literal, list/set/dict of scalars, nested spec, "
+             "list/dict/KeyedList/KeyedSet of (keyed) spec items, idempotent / non-idempotent / raising preparers, every way of declaring a default, do_not_copy by decorator list, "
+             "Attr flag and whole class, spec and plain subclasses with re-defaulted attributes, spec-plain-spec, decorator-selected attributes, eager bootstrap -- plus a fixed "
+             "corpus of 40 class definitions generated from the class grammar: a seed-rotating subset of 4 in the quick tier, all in the thorough tier); every distinct reachable "
+             "state x the exported action universe (all helpers x flags x conforming and non-conforming arguments x raising callbacks; quick tier thinned per state) is executed on "
+             "real classes rendered from the same scenario record, every copy-on-write call once more on its own result, plus seeded multi-step histories on persistent objects; "
+             "recorded: value projections (incl. key-index coherence of keyed containers), identity tokens, argument objects, a peer instance and class defaults; corrupted copies "
+             "of real events must be rejected by the judge (binding canaries); TLC judges each event: for element helpers of list/set/dict/KeyedList attributes the observed attribute equals the plain container operation of the model (append, replace/insert "
              "at Python index, assign key, add, replace by transformed value, remove by value/index/key; by-index defaulting; key promotion; keyword build/update of spec items).",
         note=TB, technique="TLA+ executable model of the container operations; spec->code replay of every (state, action); TLC compares observed with Step", ref="3 C06"),
     "C07": dict(
-        text="Same pipeline as C05/C06 on frozen scenarios (frozen root with nested/list attributes; frozen child inside a non-frozen parent, alone and in a list): MC of SpecClass.tla "
+        text="Same pipeline as C05/C06 on frozen scenarios (frozen root with nested/list attributes; frozen child inside a non-frozen parent, alone and in a list; frozen by inheritance through a plain and "
+             "through a decorated subclass; frozen with cached properties; a copy derived inside __post_init__; frozen + do_not_copy=True; a __post_copy__ hook that assigns; the frozen members of the generated corpus): MC of SpecClass.tla "
              "with the frozen rule in Step (in-place forms rejected, no-op forms allowed), then every (state, action) on the real frozen classes; TLC judges that the frozen "
              "receiver's projection and identity map never change, that in-place calls are rejected, that copy-on-write calls return a distinct instance, and -- the twin "
              "bisimulation -- that result and outcome equal the same Step that governs the non-frozen scenarios.",
@@ -129,7 +156,7 @@ CHECKS = {
     "C11": dict(
         text="SpecClassOps.tla models spec_property reads (stored entry, else getter on current state, cached when caching is on), overrides, deletions and the transitive "
              "invalidation closure; SpecClass.tla adds read/override/delete-property actions and TLC checks InvFresh (no cache entry differs from the getter recomputed without "
-             "caches) in every reachable state of five dependency-graph scenarios (attribute->cached->cached chain with a '*' wildcard dependant, managed attribute "
+             "caches) in every reachable state of the dependency-graph scenarios (two wildcard dependants, dependants declared on a plain mixin / on a plain class between spec classes, a frozen class, caches filled and a dependency assigned in __post_init__, and: attribute->cached->cached chain with a '*' wildcard dependant, managed attribute "
              "invalidated_by, chain through a NON-caching property, collection dependency mutated by element helpers, dependants added by a subclass). Every (state, action) -- "
              "states include filled caches and overrides, reached by real reads/assignments -- is executed on the real classes; TLC judges Fresh on the observed object, the "
              "value every read returns, and (through the Step equality that includes the cache slots) that unrelated or failing mutations discard nothing.",
